@@ -115,6 +115,90 @@ def cp_chars():
     return CP_CHARS
 
 
+MAGIC_PREFIXES = [(0xEF, 0xBB, 0xBF), (0xFF, 0xFE), (0xFE, 0xFF), (0xFF, 0xFE, 0x20AC), (0x2B, 0x2F, 0x76, 0x38),
+                  (0x1B, 0x24, 0x42), (0x1F, 0x2039), (0xEF, 0xBB), (0xBF, 0xEF, 0xBB, 0xBF)]
+
+
+def through_fields(chk):
+    """the same contract through the real fixed-width fields of the format: the 256-byte comment of a table entry
+    (TdfEntry._write / _build, and add_block + reopen), a 256-byte label inside a block (an event), a 32-byte camera
+    name — for valid texts incl. the boundary lengths and the signature-like prefixes"""
+    import datetime as _dt
+    import io
+    import os
+    import tempfile
+    import numpy as np
+    from basictdf import Tdf
+    from basictdf.basictdf import TdfEntry
+    from basictdf.tdfBlock import BlockType
+    from basictdf.tdfEvents import Event, EventsDataType, TemporalEventsData
+    from basictdf.tdfOpticalSystem import OpticalChannelData, OpticalSetupBlock
+    from basictdf.tdfTypes import CameraViewPort
+    rng = common.rng_for(chk.seed, "C13fields")
+    chars = cp_chars()
+    texts = []
+    for prefix in MAGIC_PREFIXES:
+        for tailtxt in ([], [84, 114, 105, 97, 108, 32, 49], [71, 114, 0xF6, 0xDF, 101]):
+            texts.append(list(prefix) + tailtxt)
+    for _ in range(60 if chk.tier == "quick" else 600):
+        n = rng.choice((0, 1, 5, 30, 31, 254, 255))
+        texts.append([rng.choice(chars) for _ in range(n)])
+    now = _dt.datetime.fromtimestamp(1_600_000_000)
+    work = tempfile.mkdtemp(prefix="verif_c13f_")
+    try:
+        for k, t in enumerate(texts):
+            s = "".join(map(chr, t))
+            got = {}
+            if len(t) <= 255:
+                e = TdfEntry(BlockType.temporalEventsData, 1, 4096, 8, now, now, now, s)
+                f = io.BytesIO()
+                try:
+                    e._write(f)
+                    got["entry comment"] = TdfEntry._build(io.BytesIO(f.getvalue())).comment
+                except Exception as x:
+                    got["entry comment"] = "raised " + common.exc_info(x)
+                ev = TemporalEventsData()
+                ev.events = [Event(s, np.array([1.0], dtype="<f4"), EventsDataType.singleEvent)]
+                f = io.BytesIO()
+                try:
+                    ev._write(f)
+                    got["event label"] = TemporalEventsData._build(io.BytesIO(f.getvalue()), ev.format.value).events[0].label
+                except Exception as x:
+                    got["event label"] = "raised " + common.exc_info(x)
+                if k % 4 == 0:
+                    p = os.path.join(work, "c%d.tdf" % k)
+                    try:
+                        Tdf.new(p)
+                        with Tdf(p).allow_write() as fh:
+                            fh.add_block(ev, comment=s)
+                        with Tdf(p) as fh:
+                            got["comment after add_block and reopen"] = fh.entries[0].comment
+                            got["label after add_block and reopen"] = fh.events.events[0].label
+                    except Exception as x:
+                        got["file"] = "raised " + common.exc_info(x)
+            if len(t) <= 31:
+                vp = CameraViewPort(np.array([0, 0], dtype="<i4"), np.array([4, 4], dtype="<i4"))
+                osb = OpticalSetupBlock(channels=[OpticalChannelData(1, s, "type", s, vp)])
+                f = io.BytesIO()
+                try:
+                    osb._write(f)
+                    ch = OpticalSetupBlock._build(io.BytesIO(f.getvalue()), osb.format.value).channels[0]
+                    got["camera name (32)"], got["lens name (32)"] = ch.camera_name, ch.lens_name
+                except Exception as x:
+                    got["camera name (32)"] = "raised " + common.exc_info(x)
+            chk.note_case(("through fields", tuple(t)), any(c >= 128 for c in t) or len(t) >= 254)
+            chk.count("text written and read back through real fields")
+            bad = {where: g for where, g in got.items() if g != s}
+            if bad:
+                where, g = sorted(bad.items())[0]
+                chk.violation("text %r (valid for the field) comes back as %r through the %s" % (s[:40], str(g)[:60], where),
+                              {"text": t, "through": where, "got": [ord(c) for c in str(g)][:80]}, True)
+                return
+    finally:
+        import shutil
+        shutil.rmtree(work, ignore_errors=True)
+
+
 def gen_cases(chk):
     """Returns list of (kind, w, payload) with kind in {'w','r'}"""
     tier, seed = chk.tier, chk.seed
@@ -174,6 +258,16 @@ def gen_cases(chk):
              for _ in range(L)]
         cases.append(("w", w, s))
     chk.count("write:random", len(cases) - n0)
+    # (f) strings whose cp1252 bytes begin like a signature of another encoding (UTF-8 / UTF-16 / UTF-32 byte-order marks,
+    #     UTF-7, ISO-2022 escapes, a gzip header): ordinary cp1252 text all the same
+    n0 = len(cases)
+    for w in (8, 32, 256):
+        for prefix in MAGIC_PREFIXES:
+            for tailtxt in ([], [84, 114, 105, 97, 108], [71, 114, 0xF6, 0xDF, 101]):
+                cases.append(("w", w, list(prefix) + tailtxt))
+                raw = list("".join(map(chr, list(prefix) + tailtxt)).encode("cp1252"))
+                cases.append(("r", w, (raw + [0] * w)[:w]))
+    chk.count("write/read:signature-like prefixes", len(cases) - n0)
     # (e) read side: every byte in 1- and 2-byte fields, every byte before/after a NUL, random fields
     n0 = len(cases)
     for b in range(256):
@@ -323,7 +417,7 @@ def run(chk):
                 "NUL / non-encodable at each position, random strings; read: every byte in small fields, random "
                 "fields with/without terminator; non-trivial = contains a non-ASCII char or is within 1 of the width "
                 "(write) / contains a byte >=128 or no NUL (read); each case run through BTSString.write/bwrite or "
-                "read/bread and through the extracted Str.v; plus ordinary reads interleaved with reads of the same field through the `encoding` parameter (five other code pages), in both orders")
+                "read/bread and through the extracted Str.v; plus ordinary reads interleaved with reads of the same field through the `encoding` parameter (five other code pages), in both orders; texts beginning like a signature of another encoding (byte-order marks, escapes); and the same write / read-back through the real fields: entry comment, event label, 32-byte camera and lens names, add_block + reopen")
     chk.assumptions = ["cp1252 table of the running CPython is the reference for 'encodable'"]
     cases = gen_cases(chk)
     dis = evaluate(chk, cases)
@@ -340,6 +434,7 @@ def run(chk):
             chk.violation("extracted model differs from vm_compute", {"cases": mc, "ocaml": a, "coq": b}, False)
     report(chk, dis)
     stateless(chk)
+    through_fields(chk)
     chk.exhaustive = chk.tier == "thorough"
 
 
